@@ -120,7 +120,7 @@ impl NumericParser {
             return true;
         }
         if *c == ',' {
-            if !self.check_comma() {
+            if self.tmp.has_point() || !self.check_comma() {
                 self.error_state = Error::COMMA;
                 return false;
             }
